@@ -14,6 +14,10 @@ def shards(test, n, checks=None, **kw):
 SELF_IDL = dict(test="TestSelfIDL", checks=2000)
 
 PLAN = {
+    "C01": dict(
+        quick=[dict(test="TestC01Rapid", checks=3000), *shards("TestC01Enum", 4)],
+        thorough=[*shards("TestC01Rapid", 12, checks=20000), *shards("TestC01Enum", 4)],
+    ),
     "C05": dict(
         quick=[SELF_IDL, dict(test="TestC05Rapid", checks=20000), *shards("TestC05Enum", 4)],
         thorough=[SELF_IDL, *shards("TestC05Rapid", 12, checks=200000), *shards("TestC05Enum", 16)],
@@ -31,12 +35,21 @@ PLAN = {
 }
 
 LEVEL = {
+    "C01": "exploration",
     "C05": "exploration",
     "C06": "exploration",
     "C09": "exploration",
 }
 
 RULE = {
+    "C01": "case = service with 1-3 scripted interfaces and 1-4 concurrent connections, each sending 1-8 calls (targets: scripted interface, "
+           "unknown interface, no interface part, GetInfo, GetInterfaceDescription valid/unknown/missing, unknown built-in method; any subset of "
+           "more/oneway/upgrade; handler scripts of 0-6 actions: reply, continues-reply, error reply valid/no-dot/reserved, the four built-in "
+           "error helpers, yield, fail, return-this-result) under a cut plan (one write, byte-at-a-time, at/before NULs, fixed, random); 90% "
+           "fake listener + net.Pipe, 10% abstract unix socket. Plus the exhaustive product 8 flag sets x all scripts of length <=2 (<=3 "
+           "thorough) over 9 actions x 3 cut plans. Oracle: per-connection reference model (frames, handler results, dispatch order, "
+           "connection fate). Non-trivial = a connection with >=2 calls containing a oneway call, an emitted continues-reply, a refused "
+           "attempt, or a handler error; distinct by case hash.",
     "C05": "trees: bounded-exhaustive (interfaces of 1-2 members over all struct/enum types of <=3 constructor nodes, <=2 fields) "
            "x 5 fixed layouts (compact, spaced, commented, CRLF, empty-comment) x rotating doc modes; plus rapid-generated trees "
            "(<=30 members, depth <=6) printed with a random string in every gap (spaces, tabs, CR, LF, CRLF, comments incl. empty "
@@ -58,6 +71,8 @@ RULE = {
 }
 
 ASSUME = {
+    "C01": ["interleavings of the N connections are sampled by the Go scheduler, not enumerated; the oracle is per connection so every interleaving is legal",
+            "a hang is a connection that shows neither EOF nor the expected replies within 10 s (30 s on the confirming retry)"],
     "C05": ["the grammar is the published varlink grammar intersected with what this repository's tests declare valid",
             "no whitespace is generated inside '[]', '[string]', '->', after '?' or ']', and only spaces/tabs between an error's name and its parameters",
             "doc strings are compared line-wise modulo surrounding blanks, only for a canonical block directly above the member"],
@@ -70,6 +85,12 @@ ASSUME = {
 
 # What MANIFEST.json claims per property (tools/mkmanifest.py).
 CLAIM = {
+    "C01": dict(
+        text="Model-based property test: generated call sequences x handler scripts x segmentations x concurrent connections are run against the "
+             "real accept loop (fake listener + net.Pipe, and abstract unix sockets) and every byte read plus the handler invocation log is "
+             "compared with a reference model of the reply discipline; a finite slice (flags x short scripts x cut plans) is enumerated exhaustively.",
+        ref="DESIGN.md section 4, C01", technique="model-based property testing (rapid) with a per-connection reference model; bounded-exhaustive slice",
+        note="white-box accessors injected by -overlay (install listener, read active count); connection interleavings are scheduler-sampled"),
     "C05": dict(
         text="Generated-input search with a round-trip oracle: every tree of a bounded-exhaustive space and tens of thousands of random "
              "trees are printed under fixed and random layouts and must parse back to exactly that tree (order, names, constructors, "
